@@ -749,7 +749,13 @@ pub fn make(plan: &str, seed: u64, count: usize, tier: &str, wave: u64) -> (Vec<
             }
         }
         _ => {
-            let prof = prof_for(plan, tier, wave).unwrap_or_else(|| panic!("unknown plan {plan}"));
+            let mut prof = prof_for(plan, tier, wave).unwrap_or_else(|| panic!("unknown plan {plan}"));
+            // the fields plan (C02) also names fields and rules like raw-identifier keywords: the generated bindings are
+            // `r#type` while the code generator's own bookkeeping uses the grammar's spelling (only here, so that the
+            // other plans that borrow the "fields" profile keep producing the grammars their records were written for)
+            if plan == "fields" {
+                prof.keyword_names = true;
+            }
             // the core plan (C01) takes a fifth of its grammars from the unicode profile: terminals over the whole Unicode
             // range are part of "the characters the syntax reference says"
             let nu = if plan == "core" { count / 5 } else { 0 };
